@@ -15,9 +15,18 @@ def litStr (l : Lit) : String := (if l.negated then "~s" else "s") ++
   (match l.des with | none => "" | some true => "+" | some false => "-")
 def litsStr (S : List Lit) : String := "{" ++ ",".intercalate (S.map litStr) ++ "}"
 
-def report (L : LogicData) : List String :=
-  let n := L.name
-  (if L.tablesTotalB then [] else [s!"tables_total {n}"])
+def soundCoreParts (L : LogicData) : List String :=
+  (if L.unsoundClosure.isEmpty then [] else ["closure_sound"]) ++ (if L.frameRulesOKB then [] else ["frames"])
+  ++ (if L.identOKB then [] else ["ident"]) ++ (if L.trunkOKB then [] else ["trunk"]) ++ (if L.vocabOKB then [] else ["vocab"])
+
+def report (L0 : LogicData) : List String :=
+  let n := L0.name
+  let L := L0.sem
+  (if L0.specDefinedB then [] else [s!"spec_defined {n}"])
+  ++ L0.tableDiff.map (fun (w, vs) => s!"tables_spec {n} {w} {valsStr vs}")
+  ++ L0.tables.definedOpsBad.map (fun (o, a, b) => s!"defined_ops {n} {o.name} {valsStr [a, b]}")
+  ++ (soundCoreParts L).map (fun p => s!"sound_core {n} {p}")
+  ++ (if L.tablesTotalB then [] else [s!"tables_total {n}"])
   ++ (L.rules.filter fun (k, r) => !L.ruleExactB k r).map (fun (k, r) =>
       s!"rules_exact {n} {keyStr k} rule={r.name} sound={L.ruleSoundB k r} witnesses=" ++
         "|".intercalate ((L.ruleWitnesses k r).map valsStr))
